@@ -37,7 +37,7 @@ ASSUMPTIONS = [
     "the pristine process is forked from a zygote that imported flox and JIT-warmed numbagg directly but never called flox",
     "sampled histories, not all finite sequences",
 ]
-PROBES = ["merged_pair", "merged_triple", "merged_dataset_variables", "clock_fault", "cache_cleared", "cache_resized",
+PROBES = ["reindex_object_reused", "eager_call", "merged_pair", "merged_triple", "merged_dataset_variables", "clock_fault", "cache_cleared", "cache_resized",
           "parts_cache_cleared", "memo_hit_after_same_call", "custom_aggregation_reused", "rechunk_helper", "scan",
           "ingredient_array", "ingredient_labels", "ingredient_func", "ingredient_ddof", "ingredient_min_count",
           "ingredient_fill_value", "ingredient_dtype", "ingredient_method", "ingredient_engine", "ingredient_sort",
@@ -155,8 +155,14 @@ def gen(tape: Tape, tier: str) -> dict:
         method = tape.choice("gen.method", [None, "map-reduce", "cohorts"])
         if method:
             kw["method"] = method
-        return {"op": "call", "api": "groupby_reduce", "arr": tape.draw("gen.arr", 2), "lab": tape.draw("gen.lab", 2),
+        if tape.chance("gen.reindexobj", 0.3):
+            # a ReindexStrategy OBJECT (reused across the calls of this history that name the same strategy)
+            kw["reindex"] = {"__reindex__": {"blockwise": tape.choice("gen.reindexobj.b", [None, None, False])}}
+        call = {"op": "call", "api": "groupby_reduce", "arr": tape.draw("gen.arr", 2), "lab": tape.draw("gen.lab", 2),
                 "chunks": [base_chunks], "kwargs": enc_value(kw)}
+        if tape.chance("gen.eagercall", 0.25):
+            call["eager"] = True
+        return call
 
     def variant(call, ing):
         c = copy.deepcopy(call)
@@ -298,7 +304,25 @@ def gen(tape: Tape, tier: str) -> dict:
 
 
 def _decode_kwargs(enc, user_aggs):
+    import json
+
     kw = dec_value(enc) if enc else {}
+    # argument objects are shared between the calls of a history that pass "the same" argument
+    pool = user_aggs.setdefault("__objects__", {})
+    r = kw.get("reindex")
+    if isinstance(r, dict) and "__reindex__" in r:
+        key = "reindex:" + json.dumps(r, sort_keys=True)
+        if key not in pool:
+            from flox import ReindexStrategy
+
+            pool[key] = ReindexStrategy(blockwise=r["__reindex__"]["blockwise"])
+        kw["reindex"] = pool[key]
+    for name in ("expected_groups", "finalize_kwargs"):
+        if name in kw and enc and name in enc:
+            key = name + ":" + json.dumps(enc[name], sort_keys=True, default=str)
+            if key not in pool:
+                pool[key] = kw[name]
+            kw[name] = pool[key]
     f = kw.get("func")
     if isinstance(f, dict) and "custom" in f:
         name = f["custom"]
@@ -322,7 +346,7 @@ def do_call(arrays, labels, op, user_aggs):
     lab = labels[op["lab"]]
     chunks = tuple(tuple(c) for c in op["chunks"])
     kw = _decode_kwargs(op.get("kwargs"), user_aggs)
-    darr = da.from_array(arr, chunks=chunks)
+    darr = da.from_array(arr, chunks=chunks) if not op.get("eager") else arr
     if api in ("groupby_reduce", "blockwise_1d"):
         out = flox.groupby_reduce(darr, lab, **kw)
     elif api == "groupby_scan":
@@ -438,7 +462,14 @@ def run(case, tape: Tape, ctx):
             if cur != d:
                 raise Violation("side-effect", f"op {i} ({op.get('api', op['op'])}) modified its {'value' if kind == 'arr' else 'label'} "
                                 f"array argument #{j}", op=i, api=op.get("api"))
+        for key, obj in user_aggs.get("__objects__", {}).items():
+            d = digest(vars(obj) if hasattr(obj, "__dict__") else obj, size=12)
+            if obj_digests.setdefault(key, d) != d:
+                raise Violation("side-effect", f"op {i} ({op.get('api')}) modified its {key.split(':')[0]} argument object "
+                                f"({key})", op=i, api=op.get("api"), argument=key.split(":")[0])
         for name, agg in user_aggs.items():
+            if name == "__objects__":
+                continue
             d = digest(vars(agg), size=12)
             if agg_digests.setdefault(name, d) != d:
                 raise Violation("side-effect", f"op {i} ({op.get('api')}) modified the user's Aggregation object {name!r}", op=i, api=op.get("api"))
@@ -446,6 +477,7 @@ def run(case, tape: Tape, ctx):
             raise Violation("side-effect", f"op {i} ({op.get('api', op['op'])}) modified flox's AGGREGATIONS registry", op=i, api=op.get("api"))
 
     agg_digests: dict = {}
+    obj_digests: dict = {}
     try:
         with simulated_cache_clock(clock):
             for i, op in enumerate(case["ops"]):
@@ -456,9 +488,12 @@ def run(case, tape: Tape, ctx):
                         # make sure the (reused) user object exists and is snapshotted BEFORE the call
                         _decode_kwargs(op["kwargs"], user_aggs)
                         for name, agg in user_aggs.items():
-                            agg_digests.setdefault(name, digest(vars(agg), size=12))
+                            if name != "__objects__":
+                                agg_digests.setdefault(name, digest(vars(agg), size=12))
                         ctx.probe("custom_aggregation_reused", len([1 for o in case["ops"][:i] if o.get("op") == "call" and isinstance(dec_value(o.get("kwargs") or {}).get("func"), dict)]) > 0)
                     kw_objs = _decode_kwargs(op.get("kwargs"), user_aggs)
+                    for key, obj in user_aggs.get("__objects__", {}).items():
+                        obj_digests.setdefault(key, digest(vars(obj) if hasattr(obj, "__dict__") else obj, size=12))
                     eg = kw_objs.get("expected_groups")
                     eg_d = digest(eg) if eg is not None else None
                     hits0 = getattr(flox.cache.cache, "hits", None)
@@ -473,6 +508,8 @@ def run(case, tape: Tape, ctx):
                         det.update(op=i, api=op["api"])
                         raise Violation(cls, f"op {i} {op['api']}: {msg}", **det)
                     ncalls += 1
+                    ctx.probe("eager_call", bool(op.get("eager")))
+                    ctx.probe("reindex_object_reused", any(k.startswith("reindex:") for k in user_aggs.get("__objects__", {})))
                     ctx.probe("rechunk_helper", op["api"].startswith("rechunk"))
                     ctx.probe("scan", op["api"] == "groupby_scan")
                     if eg is not None and digest(eg) != eg_d:
